@@ -10,11 +10,18 @@ import (
 	"sort"
 	"strings"
 
+	"github.com/bufbuild/protocompile"
 	"github.com/bufbuild/protocompile/linker"
 	"github.com/pentops/j5/internal/j5s/protobuild"
 	"github.com/pentops/j5/internal/j5s/protoprint"
 	"github.com/pentops/log.go/log"
+	"google.golang.org/protobuf/reflect/protoregistry"
 	"google.golang.org/protobuf/types/descriptorpb"
+
+	_ "github.com/pentops/j5/gen/j5/messaging/v1/messaging_j5pb"
+	_ "github.com/pentops/j5/gen/j5/state/v1/psm_j5pb"
+	_ "google.golang.org/genproto/googleapis/api/annotations"
+	_ "google.golang.org/genproto/googleapis/api/httpbody"
 )
 
 func init() {
@@ -108,4 +115,24 @@ func Compile(b *Bundle, pkg string) (linker.Files, error) {
 
 func Print(f linker.File) (string, error) {
 	return protoprint.PrintFile(context.Background(), f, "")
+}
+
+// Reparse compiles printed .proto texts with protocompile. Imports resolve to
+// the given texts first and then to the global registry (google, buf, j5 built-ins),
+// the way internal/protosrc resolves them.
+func Reparse(texts map[string]string, paths ...string) (linker.Files, error) {
+	compiler := protocompile.Compiler{
+		Resolver: protocompile.CompositeResolver{
+			&protocompile.SourceResolver{Accessor: protocompile.SourceAccessorFromMap(texts)},
+			protocompile.ResolverFunc(func(p string) (protocompile.SearchResult, error) {
+				fd, err := protoregistry.GlobalFiles.FindFileByPath(p)
+				if err != nil {
+					return protocompile.SearchResult{}, err
+				}
+				return protocompile.SearchResult{Desc: fd}, nil
+			}),
+		},
+		SourceInfoMode: protocompile.SourceInfoStandard,
+	}
+	return compiler.Compile(context.Background(), paths...)
 }
